@@ -486,3 +486,9 @@ class Encoder(Coder):
         all_equal = values.count(values[0]) == state.n_subsets
         all_missing = (values[0] is None) if all_equal else False
         return values, all_equal, all_missing
+
+
+from pybufrkit import _verif  # noqa: E402
+
+if _verif.enabled():
+    _verif.instrument(Encoder)
